@@ -134,6 +134,12 @@ static void run_round(uint64_t idx, pv_rng* rng) {
         if (!s) { pv_violation("C01/load-failed", "cannot load %s under mask %u", pv_mseed_str(&m), mask); return; }
         how = "loaded";
     }
+    /* "identical seed": the decoded seeds are compared with the abstract value m below; the seed that is encoded must itself be that
+     * value through every observer (store bytes, KDF inputs, queries) - otherwise a seed that carries something a phrase cannot
+     * (stray bits beyond the 150th after the password operation, say) would come back different without anybody noticing */
+    { const char* om = pv_seed_mismatch(s, &m, coin); PV_COUNT("evaluations", 1);
+      if (om) { pv_violation("C01/encoded-seed-is-not-what-decoding-returns", "[%s] mask %u coin %u: the seed handed to encode differs from the abstract value its phrase carries: %s", how, mask, coin, om); pv_api_free(s); return; }
+      pv_countf(1, "original_seed_observed.%s", how); }
     /* three languages per seed, rotating so that all are covered evenly */
     for (int k = 0; k < 3; ++k) {
         pv_mlang* L = &pv_langs[(idx / 8 + (uint64_t)k * 3 + (uint64_t)k) % (uint64_t)pv_nlangs];
